@@ -389,9 +389,14 @@ class CLikeCompiler(Compiler):
         for d in dependencies:
             # Add compile flags needed by dependencies
             cargs += d.get_compile_args()
+            # Add the include directories of a dependency as one batch:
+            # CompilerArgs puts every batch of -I in front of what is already
+            # there, so adding them one by one would reverse their order.
+            incargs: T.List[str] = []
             for i in d.get_include_dirs():
                 for idir in i.abs_string_list(self.environment.get_source_dir(), self.environment.get_build_dir()):
-                    cargs.extend(self.get_include_args(idir, i.is_system))
+                    incargs.extend(self.get_include_args(idir, i.is_system))
+            cargs += incargs
             if mode is CompileCheckMode.LINK:
                 # Add link flags needed to find dependencies
                 largs += d.get_link_args()
